@@ -103,10 +103,29 @@ def rule_vocabulary_keep():
     segment occurs as a word somewhere in rules/*.py. Helpers the rules have never heard of are inlined into their callers."""
     global _VOCAB
     if _VOCAB is None:
+        import ast
         import glob
         import re
-        txt = "".join(open(f).read() for f in sorted(glob.glob(os.path.join(VERIF, "rules", "*.py"))))
-        _VOCAB = set(re.findall(r"[A-Za-z_][A-Za-z0-9_]*", txt))
+        ident = re.compile(r"^[A-Za-z_][A-Za-z0-9_]*$")
+        word = re.compile(r"[A-Za-z_][A-Za-z0-9_]*")
+        vocab = set()
+        for f in sorted(glob.glob(os.path.join(VERIF, "rules", "*.py"))):
+            tree = ast.parse(open(f).read())
+            doc = set()
+            for node in ast.walk(tree):
+                if isinstance(node, (ast.FunctionDef, ast.ClassDef, ast.Module)) and node.body and isinstance(node.body[0], ast.Expr) and \
+                        isinstance(getattr(node.body[0], "value", None), ast.Constant) and isinstance(node.body[0].value.value, str):
+                    doc.add(id(node.body[0].value))
+            for node in ast.walk(tree):
+                if isinstance(node, ast.Constant) and isinstance(node.value, str) and id(node) not in doc:
+                    v = node.value
+                    if ident.match(v):
+                        vocab.add(v)                      # "tally_op", "is_tune": a name on its own
+                    elif "::" in v and len(v) < 200:
+                        # a path, a path suffix or a pattern of paths: the names next to a `::`
+                        for m in re.finditer(r"(?:(?<=::)[A-Za-z_][A-Za-z0-9_]*)|(?:[A-Za-z_][A-Za-z0-9_]*(?=::))", v):
+                            vocab.add(m.group(0))
+        _VOCAB = vocab
     vocab = _VOCAB
 
     def keep(name):
